@@ -26,6 +26,14 @@ NO_PROP = {"mem::size_of", "Layout::array", "log::max_level", "__private_api::lo
            "Argument::new_debug", "Argument::new_lower_hex", "Argument::new_upper_hex", "__private_api::log", "PartialOrd::le"}
 
 
+PREDICATE_COMBINATORS = {
+    # selectors: the result is an element (or its position) of the iterator / option itself, the closure's bool only
+    # picks it.  Counting adaptors (filter(..).count(), any, all, take_while) stay data dependent on the predicate.
+    "Iterator::find", "Iterator::rfind", "Iterator::position", "Iterator::rposition", "Option::filter",
+    "DoubleEndedIterator::rfind", "DoubleEndedIterator::rposition",
+}
+
+
 class Taint:
     def __init__(self, prog, sources):
         """sources: list of tuples
@@ -302,6 +310,13 @@ class Taint:
                     if self._taint_ref_target(bi, pl["l"], "out-param of %s" % c.name):
                         ch = True
         else:
+            # closures handed to an external combinator do not count as tainted *data*: what they captured lives in
+            # their upvar cells, and what they return is accounted for below
+            def _is_closure_arg(a):
+                pl_ = op_place(a)
+                return pl_ is not None and not pl_["p"] and self.closure_def_of_local[bi].get(pl_["l"]) is not None
+
+            anyt = any(args_t[k] for k in range(len(args_t)) if not _is_closure_arg(c.args[k]))
             if anyt and not (names & NO_PROP):
                 dest_t = True
                 # tainted data handed to a closure-taking combinator: the closure's params see it
@@ -310,7 +325,9 @@ class Taint:
                     if pl is None or pl["p"]:
                         continue
                     cd = self.closure_def_of_local[bi].get(pl["l"])
-                    if cd and cd in self.prog.by_path:
+                    # (only data coming from the *other* arguments - the iterator, the option - reaches the closure's
+                    # parameters; what the closure captured is already in its upvar cells)
+                    if cd and cd in self.prog.by_path and any(args_t[j] for j in range(len(args_t)) if j != k):
                         cb = self.prog.by_path[cd]
                         ci = self.idx[id(cb)]
                         for p in range(2, cb.arg_count + 1):
@@ -326,8 +343,9 @@ class Taint:
                             ch = True
                         if self._taint_ref_target(bi, pl["l"], "mutable argument of %s" % c.name):
                             ch = True
-            # result of a closure passed in
-            for k, a in enumerate(c.args):
+            # result of a closure passed in (not for predicates: a bool that only *selects* an element is an implicit
+            # flow, treated like a branch condition everywhere else)
+            for k, a in enumerate(c.args if not (names & PREDICATE_COMBINATORS) else []):
                 pl = op_place(a)
                 if pl is None or pl["p"]:
                     continue
